@@ -141,6 +141,7 @@ def do_replay(prop, path):
 
 
 def check(prop, tier, seed):
+    os.environ["PYVC_WORK"] = _work()      # scratch of the solvers (SMT-LIB files for cvc5): never /tmp
     t0 = time.time()
     entry = registry.PROPERTIES[prop]
     findings = load_findings()
